@@ -264,6 +264,18 @@ def run(ctx):
         if rnd.random() < 0.15:
             thr = sig[0] if not thr_arr else sig.copy()     # ties
         op = rnd.choice(["gt", "lt"])
+        # small amplitudes (nA / pA scale: exact power-of-two factors) and thresholds a hair away from the samples
+        K = 64
+        if not intsig and rnd.random() < 0.5:
+            if rnd.random() < 0.5:
+                hair = 2.0 ** -26 * rnd.choice([1, -1])
+                thr = (sig + hair) if thr_arr else float(sig[rnd.randrange(n)]) + hair
+                thr = np.abs(thr) if thr_arr else abs(thr)
+                K = 2 ** 26
+            pw = rnd.choice([2.0 ** -30, 2.0 ** -40, 2.0 ** 20, 1.0])
+            sig, thr = sig * pw, thr * pw
+            noise = None if noise is None else noise * pw
+            K = K / pw
         E = electrical_signal(sig, noise)
         for arr in (E.signal, E.noise):
             if arr is not None:
@@ -274,8 +286,8 @@ def run(ctx):
         if not ok:
             ctx.violation("cmp:type", "comparison did not return a valid binary_sequence", {"sig": sig.tolist()})
             continue
-        events.append({"kind": "cmp", "op": op, "sig": [int(v * 64) for v in sig], "noise": [] if noise is None else [int(v * 64) for v in noise],
-                       "thr": [int(v * 64) for v in (thr if thr_arr else [thr])], "out": bits(out)})
+        events.append({"kind": "cmp", "op": op, "sig": [int(round(v * K)) for v in sig], "noise": [] if noise is None else [int(round(v * K)) for v in noise],
+                       "thr": [int(round(v * K)) for v in (thr if thr_arr else [thr])], "out": bits(out)})
         meta.append(("cmp", op))
         ctx.case(("cmp", op, noise is not None, thr_arr, min(n, 3), intsig))
         # complex / negative data: only closure is stated
@@ -285,6 +297,22 @@ def run(ctx):
         events.append({"kind": "cmpany", "n": n, "out": bits(out) if isinstance(out, binary_sequence) else [2]})
         meta.append(("cmpany", op))
         ctx.case(("cmpany", op, noise is not None, thr_arr))
+    # index keys that would add an axis or select through a 2-D index: rejected, or at any rate never an invalid (non 1-D) sequence
+    for b in ([1, 0, 1, 1, 0, 0, 1, 0], [1], [0, 1, 1]):
+        a = mk(b)
+        for kname, key in (("None", None), ("slice,None", (slice(None), None)), ("...,None", (Ellipsis, None)), ("None,slice", (None, slice(None))),
+                           ("2-D index", np.array([[0, 1], [2, 0]]) % len(b)), ("nested list", [[0, len(b) - 1, 0]]), ("bool mask", np.array(b, dtype=bool)),
+                           ("int list", [0, len(b) - 1]), ("np.int64", np.int64(0)), ("negative", -1)):
+            try:
+                with deadline(30):
+                    res = a[key]
+                ok = isinstance(res, binary_sequence) and isinstance(res.data, np.ndarray) and res.data.ndim == 1 and res.data.dtype == np.uint8 \
+                    and set(np.unique(res.data).tolist()) <= {0, 1} and not np.shares_memory(res.data, a.data)
+                if not ok:
+                    ctx.violation(f"index:{kname}:invalid-sequence", f"a[{kname}] returned an invalid sequence: data of shape {getattr(getattr(res, 'data', None), 'shape', None)}", {"bits": b, "key": kname})
+            except (ValueError, TypeError, IndexError):
+                pass
+            ctx.case(("index-key", kname, len(b)), None, nontrivial=False)
     # thresholds of another length: rejected, or at any rate never a result of another length than the signal's
     for sl, tl in [(1, 4), (1, 2), (3, 4), (4, 3), (5, 2), (2, 257), (4, 1), (1, 1), (7, 7)]:
         for op in ("gt", "lt"):
